@@ -4,18 +4,6 @@
 //           accept iff u, v, pk != O, y != 0 and  dl(v) + (dl(u) + y*h) * X == 0.
 // ---------------------------------------------------------------------------------------------
 
-/// the acceptance equation in discrete-log form
-pub proof fn lemma_pok_eq_iff(u: Sig, v: Sig, pk: Pk, y: Scalar, m: Seq<u8>, d: Seq<u8>)
-    ensures pok_eq(u, v, pk, y, m, d) <==> fadd(v.dl(), fmul(fadd(u.dl(), fmul(hp(m, d).dl(), y.val())), pk.dl())) == 0
-{
-    broadcast use ring;
-    lemma_pair_sum_2((v, pk_of(1)), (sig_add(u, sig_mul(hp(m, d), y)), pk));
-    assert(pok_pairs(u, v, pk, y, m, d) =~= seq![(v, pk_of(1)), (sig_add(u, sig_mul(hp(m, d), y)), pk)]);
-    axiom_r_gt_1();
-    assert(pk_of(1).dl() == 1);
-    assert(fmul(v.dl(), 1) == v.dl());
-}
-
 /// the algebra of completeness:  v = -(x'+y) * (h*X),  u = x'*h   ==>   v + (u + y*h)*X == 0
 pub proof fn lemma_pok_complete(h: int, xx: int, xp: int, y: int)
     requires inr(h), inr(xx), inr(xp), inr(y),
@@ -60,7 +48,7 @@ pub fn c10_complete(sk: &SecretKey, scheme: SignatureSchemes, msg: &[u8], y: Pro
                                 let h = hp(msg@, scheme_dst(scheme)).dl();
                                 let xx = sk.0.val();
                                 let xp = x.0.val();
-                                lemma_pok_eq_iff(pok_u(proof), pok_v(proof), pk.0, y.0, msg@, scheme_dst(scheme));
+                                lemma_pok_eq_iff2(pok_u(proof), pok_v(proof), pk.0, y.0, msg@, scheme_dst(scheme));
                                 lemma_pok_complete(h, xx, xp, y.0.val());
                                 // v != O: (x'+y) may be 0 only with negligible probability — X-LIN
                             }
@@ -107,6 +95,40 @@ pub fn c10_complete_message_augmentation(sk: &SecretKey, msg: &[u8], y: ProofCom
     }
 }
 
+/// v + (u + h*y)*X == 0 and v + (u + h*y2)*X == 0, X != 0, h != 0  ==>  y == y2
+pub proof fn lemma_pok_two_challenges(vv: int, u: int, h: int, y: int, y2: int, x: int)
+    requires inr(vv), inr(u), inr(h), inr(y), inr(y2), inr(x), x != 0, h != 0,
+        fadd(vv, fmul(fadd(u, fmul(h, y)), x)) == 0,
+        fadd(vv, fmul(fadd(u, fmul(h, y2)), x)) == 0,
+    ensures y == y2
+{
+    let a1 = fadd(u, fmul(h, y));
+    let a2 = fadd(u, fmul(h, y2));
+    lemma_range_add(u, fmul(h, y)); lemma_range_add(u, fmul(h, y2));
+    lemma_range_mul(a1, x); lemma_range_mul(a2, x); lemma_range_mul(h, y); lemma_range_mul(h, y2);
+    lemma_add_comm(vv, fmul(a1, x)); lemma_add_comm(vv, fmul(a2, x));
+    lemma_add_cancel(fmul(a1, x), fmul(a2, x), vv);
+    lemma_mul_cancel(a1, a2, x);
+    lemma_add_comm(u, fmul(h, y)); lemma_add_comm(u, fmul(h, y2));
+    lemma_add_cancel(fmul(h, y), fmul(h, y2), u);
+    lemma_mul_comm(h, y); lemma_mul_comm(h, y2);
+    lemma_mul_cancel(y, y2, h);
+}
+/// v + (u1 + t)*X == 0 and v + (u2 + t)*X == 0, X != 0  ==>  u1 == u2
+pub proof fn lemma_pok_two_commitments(vv: int, u1: int, u2: int, t: int, x: int)
+    requires inr(vv), inr(u1), inr(u2), inr(t), inr(x), x != 0,
+        fadd(vv, fmul(fadd(u1, t), x)) == 0,
+        fadd(vv, fmul(fadd(u2, t), x)) == 0,
+    ensures u1 == u2
+{
+    lemma_range_add(u1, t); lemma_range_add(u2, t);
+    lemma_range_mul(fadd(u1, t), x); lemma_range_mul(fadd(u2, t), x);
+    lemma_add_comm(vv, fmul(fadd(u1, t), x)); lemma_add_comm(vv, fmul(fadd(u2, t), x));
+    lemma_add_cancel(fmul(fadd(u1, t), x), fmul(fadd(u2, t), x), vv);
+    lemma_mul_cancel(fadd(u1, t), fadd(u2, t), x);
+    lemma_add_cancel(u1, u2, t);
+}
+
 /// challenge-bound: a proof accepted for y is rejected for every other challenge y'
 pub fn c10_other_challenge_rejected(proof: &ProofOfKnowledge, pk: PublicKey, msg: &[u8], y: ProofCommitmentChallenge, y2: ProofCommitmentChallenge)
     requires y2.0 != y.0, hp(msg@, scheme_dst(pok_scheme(*proof))).dl() != 0,             // X-NONID
@@ -114,28 +136,18 @@ pub fn c10_other_challenge_rejected(proof: &ProofOfKnowledge, pk: PublicKey, msg
     let v1 = proof.verify(pk, msg, y);
     let v2 = proof.verify(pk, msg, y2);
     proof {
-        broadcast use ring;
         let d = scheme_dst(pok_scheme(*proof));
-        let h = hp(msg@, d).dl();
-        lemma_pok_eq_iff(pok_u(*proof), pok_v(*proof), pk.0, y.0, msg@, d);
-        lemma_pok_eq_iff(pok_u(*proof), pok_v(*proof), pk.0, y2.0, msg@, d);
+        lemma_pok_eq_iff2(pok_u(*proof), pok_v(*proof), pk.0, y.0, msg@, d);
+        lemma_pok_eq_iff2(pok_u(*proof), pok_v(*proof), pk.0, y2.0, msg@, d);
         if v1 is Ok && v2 is Ok {
-            // v + (u + y h) X == v + (u + y' h) X  ==>  (u + y h) X == (u + y' h) X ==> y h == y' h ==> y == y'
-            let a = fmul(fadd(pok_u(*proof).dl(), fmul(h, y.0.val())), pk.0.dl());
-            let b = fmul(fadd(pok_u(*proof).dl(), fmul(h, y2.0.val())), pk.0.dl());
-            assert(fadd(a, pok_v(*proof).dl()) == fadd(b, pok_v(*proof).dl()));
-            lemma_add_cancel(a, b, pok_v(*proof).dl());
-            lemma_mul_cancel(fadd(pok_u(*proof).dl(), fmul(h, y.0.val())), fadd(pok_u(*proof).dl(), fmul(h, y2.0.val())), pk.0.dl());
-            assert(fadd(fmul(h, y.0.val()), pok_u(*proof).dl()) == fadd(fmul(h, y2.0.val()), pok_u(*proof).dl()));
-            lemma_add_cancel(fmul(h, y.0.val()), fmul(h, y2.0.val()), pok_u(*proof).dl());
-            lemma_mul_cancel(y.0.val(), y2.0.val(), h);
+            lemma_pok_two_challenges(pok_v(*proof).dl(), pok_u(*proof).dl(), hp(msg@, d).dl(), y.0.val(), y2.0.val(), pk.0.dl());
         }
     }
     assert(!(v1 is Ok && v2 is Ok));
 }
 
-/// any modified proof component or another public key is rejected: for fixed (pk, m, y) the
-/// accepted v is determined by u, and for fixed (v, m, y, pk) the accepted u is unique
+/// any modified proof component is rejected: for fixed (pk, m, y) the accepted v is determined by
+/// u, and for fixed (v, m, y, pk) the accepted u is unique
 pub fn c10_modified_component_rejected(p1: &ProofOfKnowledge, p2: &ProofOfKnowledge, pk: PublicKey, msg: &[u8], y: ProofCommitmentChallenge)
     requires
         pok_scheme(*p1) == pok_scheme(*p2),
@@ -144,22 +156,18 @@ pub fn c10_modified_component_rejected(p1: &ProofOfKnowledge, p2: &ProofOfKnowle
     let v1 = p1.verify(pk, msg, y);
     let v2 = p2.verify(pk, msg, y);
     proof {
-        broadcast use ring;
         let d = scheme_dst(pok_scheme(*p1));
         let h = hp(msg@, d).dl();
-        lemma_pok_eq_iff(pok_u(*p1), pok_v(*p1), pk.0, y.0, msg@, d);
-        lemma_pok_eq_iff(pok_u(*p2), pok_v(*p2), pk.0, y.0, msg@, d);
+        lemma_pok_eq_iff2(pok_u(*p1), pok_v(*p1), pk.0, y.0, msg@, d);
+        lemma_pok_eq_iff2(pok_u(*p2), pok_v(*p2), pk.0, y.0, msg@, d);
         if v1 is Ok && v2 is Ok {
-            let w1 = fmul(fadd(pok_u(*p1).dl(), fmul(h, y.0.val())), pk.0.dl());
-            let w2 = fmul(fadd(pok_u(*p2).dl(), fmul(h, y.0.val())), pk.0.dl());
+            lemma_range_mul(h, y.0.val());
             if pok_u(*p1) == pok_u(*p2) {
-                assert(fadd(pok_v(*p1).dl(), w1) == fadd(pok_v(*p2).dl(), w1));
-                lemma_add_cancel(pok_v(*p1).dl(), pok_v(*p2).dl(), w1);
+                let w = fmul(fadd(pok_u(*p1).dl(), fmul(h, y.0.val())), pk.0.dl());
+                lemma_range_mul(fadd(pok_u(*p1).dl(), fmul(h, y.0.val())), pk.0.dl());
+                lemma_add_cancel(pok_v(*p1).dl(), pok_v(*p2).dl(), w);
             } else {
-                assert(fadd(w1, pok_v(*p1).dl()) == fadd(w2, pok_v(*p1).dl()));
-                lemma_add_cancel(w1, w2, pok_v(*p1).dl());
-                lemma_mul_cancel(fadd(pok_u(*p1).dl(), fmul(h, y.0.val())), fadd(pok_u(*p2).dl(), fmul(h, y.0.val())), pk.0.dl());
-                lemma_add_cancel(pok_u(*p1).dl(), pok_u(*p2).dl(), fmul(h, y.0.val()));
+                lemma_pok_two_commitments(pok_v(*p1).dl(), pok_u(*p1).dl(), pok_u(*p2).dl(), fmul(h, y.0.val()), pk.0.dl());
             }
         }
     }
